@@ -114,16 +114,32 @@ def legal_burst(cfg, op):
 
 
 # ---------------------------------------------------------------------------------------------------
+def _norm(spec):
+    """schedule_iter alternates ready/stalled by a running index, so an odd-length pattern swaps roles on every pass:
+    make that explicit"""
+    if isinstance(spec, list) and len(spec) % 2:
+        return spec * 2
+    return spec
+
+
+def chan_time(spec, n):
+    """upper bound on the cycles a channel with this ready schedule needs for n handshakes when valid is always offered"""
+    spec = _norm(spec)
+    if not spec and not isinstance(spec, int):
+        return n + 2
+    if isinstance(spec, int):
+        return n * (spec + 3) + 2
+    rdy = sum(spec[0::2])
+    if rdy == 0:
+        return n + sum(spec) + 2
+    return (n // rdy + 2) * sum(spec)
+
+
 class ReadySched:
     def __init__(self, spec):
         self.spec = spec
         self.it = None if isinstance(spec, int) else schedule_iter(spec)
         self.seen = 0
-
-    def bound(self):
-        if isinstance(self.spec, int):
-            return self.spec + 2
-        return sum(self.spec or [0]) + 2
 
     def next(self, valid_waiting):
         """ready value to drive for the next cycle; valid_waiting = valid seen now and not handshaken now"""
@@ -345,18 +361,19 @@ def nbeats_of(stim):
 
 
 def cycle_cap(cfg, stim):
-    """proportional to the number of beats; generous (a completed case stops long before)"""
+    """proportional to the number of beats (and to the stalls the case itself asks for); a completed case stops long before"""
     sl = stim.get("slave", {})
-    lat = max((sl.get("wlat") or [3]) + (sl.get("rlat") or [5])) + sum(sl.get("ready") or [0]) + 6
-    stall = ReadySched(stim.get("b_ready")).bound() + ReadySched(stim.get("r_ready")).bound()
-    cap = 400 + 4 * stall
+    per_cmd = max((sl.get("wlat") or [3]) + (sl.get("rlat") or [5])) + sum(sl.get("ready") or [0]) + 4      # qmax = 1: strictly serial
+    wb = sum(op["len"] + 1 for op in stim["ops"] if op["kind"] == "w")
+    rb = sum(op["len"] + 1 for op in stim["ops"] if op["kind"] == "r")
+    nw = sum(1 for op in stim["ops"] if op["kind"] == "w")
+    cyc = (wb * (2 if cfg["rmw"] else 1) + rb) * per_cmd + wb * (8 if cfg["rmw"] else 2) + rb * 2
+    cyc += chan_time(stim.get("b_ready"), nw) + chan_time(stim.get("r_ready"), rb)
     for op in stim["ops"]:
-        per = 8 + (3 if cfg["rmw"] else 1) * lat + stall
+        cyc += op.get("gap", 0) + 6
         if op["kind"] == "w":
-            per += max(op.get("wgap") or [0])
-            cap += abs(op.get("wrel", 0))
-        cap += op.get("gap", 0) + (op["len"] + 1) * per + 2 * lat + stall
-    return cap
+            cyc += abs(op.get("wrel", 0)) + (op["len"] + 1) * max(op.get("wgap") or [0])
+    return 300 + 2 * cyc
 
 
 def run_axi(cfg, stim, backend="fast", max_cycles=None, trace=None):
@@ -437,10 +454,14 @@ def oracle_axi(run, P="C09"):
     def bgbyte(x):
         return _byte(s.bg(x // nb, dw), x % nb)
 
-    # ---- diagnosis of the native command stream (labels only, never a verdict) -------------------------
-    cause = None
+    # ---- diagnosis from interface-observable facts (labels in the finding key only, never a verdict) -------------------
+    # The labels name the condition under which a deviation was seen, so that different deviations stay distinguishable.
+    labels = []
+    cmds = [e for e in s.log if e[0] == "C"]
+    wcmd_t = [e[1] for e in cmds if e[3]]              # native write commands accepted, in order (one per W beat)
+    nwl = [e for e in s.log if e[0] == "W"]            # native writes performed, in order
+    wt = [e[1] for e in nwl]
     if rmw:
-        cmds = [e for e in s.log if e[0] == "C"]
         wi = -1
         for ci, e in enumerate(cmds):
             if not e[3]:
@@ -450,16 +471,57 @@ def oracle_axi(run, P="C09"):
                 break
             if wbeats[wi][5] != full:
                 prev = cmds[ci - 1] if ci else None
-                if prev is None or prev[3] or prev[4] != e[4]:
-                    cause = "rmw_read_not_at_partial_beat_address"
+                if prev is None or prev[3] or prev[4] != e[4] or e[4] != wbeats[wi][3]:
+                    kk = wbeats[wi][0]
+                    if m.acc_t[kk] is None or e[1] <= m.acc_t[kk]:
+                        labels.append("rmw_started_before_aw")           # partial beat processed before its AW handshake
+                    else:
+                        labels.append("rmw_not_at_partial_beat_address")  # read-modify-write cycle not performed on the partial beat's own word
                     break
+    wd = cfg["wdepth"]
+    # native write commands accepted whose data phase has not happened yet
+    ev = sorted([(t, 0) for t in wcmd_t] + [(t, 1) for t in wt])
+    cur = mx = 0
+    for t, kind in ev:
+        cur += 1 if kind == 0 else -1
+        mx = max(mx, cur)
+    if mx > wd:
+        labels.append("native_writes_outstanding_gt_wdepth")
+    # write bursts between the native command of their first beat and the native data phase of their last beat
+    ev = []
+    for i in range(len(cum)):
+        first = cum[i - 1] if i else 0
+        if first < len(wcmd_t):
+            ev.append((wcmd_t[first], 0))
+            if cum[i] - 1 < len(wt):
+                ev.append((wt[cum[i] - 1], 1))
+    cur = mx = 0
+    for t, kind in sorted(ev):
+        cur += 1 if kind == 0 else -1
+        mx = max(mx, cur)
+    if mx > wd:
+        labels.append("write_bursts_in_pipeline_gt_wdepth")
+    # write bursts completely handed to the native port whose B has not been taken by the master yet
+    ev = []
+    for i in range(len(cum)):
+        if cum[i] - 1 < len(wt):
+            ev.append((wt[cum[i] - 1], 0))
+            if i < len(m.b_log):
+                ev.append((m.b_log[i][0], 1))
+    cur = mx = 0
+    for t, kind in sorted(ev):
+        cur += 1 if kind == 0 else -1
+        mx = max(mx, cur)
+    if mx > wd:
+        labels.append("responses_waiting_gt_wdepth")
+    cause = labels[0] if labels else None
 
     def key(base):
-        return (cause + "/" + base) if cause else base
+        return base + "/" + tag + ("/" + "+".join(labels) if labels else "")
 
     # ---- lost beats on the native side -------------------------------------------------------------------
     for e in s.lost:
-        fs.append(dict(clause=P + ".lost_beat", key=e[0] + "/" + tag, what="native-side %s at cycle %d (word 0x%x): the bridge was not %s when the one-cycle strobe arrived" % (
+        fs.append(dict(clause=P + ".lost_beat", key=key(e[0]), what="native-side %s at cycle %d (word 0x%x): the bridge was not %s when the one-cycle strobe arrived" % (
             e[0], e[1], e[3], "presenting write data" if e[0].startswith("W") else "ready for read data")))
         break
     # ---- handshake rule on B / R -------------------------------------------------------------------------
@@ -468,27 +530,25 @@ def oracle_axi(run, P="C09"):
         break
 
     # ---- write responses -----------------------------------------------------------------------------------
-    nwl = [e for e in s.log if e[0] == "W"]            # native writes performed, in order
-    wt = [e[1] for e in nwl]
     by_word = {}
     for e in nwl:
         if e[6]:
             by_word.setdefault(e[3], []).append(e)
     for i, (tb, bid, bresp, tbv) in enumerate(m.b_log):
         if i >= len(m.wr):
-            fs.append(dict(clause=P + ".b_count", key="extra/" + tag, what="write response #%d (id %d) at cycle %d but only %d write bursts were issued" % (i, bid, tb, len(m.wr))))
+            fs.append(dict(clause=P + ".b_count", key=key("extra"), what="write response #%d (id %d) at cycle %d but only %d write bursts were issued" % (i, bid, tb, len(m.wr))))
             break
         k = m.wr[i]
         op = ops[k]
         if bid != op["id"]:
-            fs.append(dict(clause=P + ".b_id", key=tag, what="write response #%d carries id %d, write burst #%d (op %d) was issued with id %d" % (i, bid, i, k, op["id"])))
+            fs.append(dict(clause=P + ".b_id", key=key("id"), what="write response #%d carries id %d, write burst #%d (op %d) was issued with id %d" % (i, bid, i, k, op["id"])))
             break
         if bresp != 0:
             fs.append(dict(clause=P + ".resp", key="b/" + tag, what="write response #%d has BRESP=%d" % (i, bresp)))
             break
         acc = m.w_acc_t[k]
         if len(acc) <= op["len"] or tbv <= acc[-1]:
-            fs.append(dict(clause=P + ".b_early", key="before_last_w_accepted/" + tag, what="BVALID of write burst #%d (op %d, %d beats) raised at cycle %d, %s" % (
+            fs.append(dict(clause=P + ".b_early", key=key("before_last_w_accepted"), what="BVALID of write burst #%d (op %d, %d beats) raised at cycle %d, %s" % (
                 i, k, op["len"] + 1, tbv, ("its last W beat was accepted at cycle %d" % acc[-1]) if len(acc) > op["len"] else ("only %d of its W beats had been accepted when the run ended" % len(acc)))))
             break
         # handed to the native port: the burst's last beat is native write number cum[i]; fall back to a value-based test so
@@ -506,7 +566,7 @@ def oracle_axi(run, P="C09"):
                     miss = (wa, b, v)
                     break
             if miss:
-                fs.append(dict(clause=P + ".b_before_data", key=key(tag), what="BVALID of write burst #%d (op %d) raised at cycle %d but only %d of the %d native writes up to its last beat had been performed by then (byte %d of word 0x%x = 0x%02x not yet handed to the memory)" % (
+                fs.append(dict(clause=P + ".b_before_data", key=key("native"), what="BVALID of write burst #%d (op %d) raised at cycle %d but only %d of the %d native writes up to its last beat had been performed by then (byte %d of word 0x%x = 0x%02x not yet handed to the memory)" % (
                     i, k, tbv, sum(1 for x in wt if x <= tbv), cum[i], miss[1], miss[0], miss[2])))
                 break
 
@@ -560,7 +620,7 @@ def oracle_axi(run, P="C09"):
                 if got not in allowed:
                     older = [v for wn, v in ent if wn < npre][:-1] + [bgbyte(x)]
                     kind = "stale_after_b" if (npre and got in older and any(wn < npre for wn, _ in ent)) else "unexpected_value"
-                    fs.append(dict(clause=P + ".read_data", key=key(kind + "/" + tag), what="beat %d of read burst #%d (op %d, %s, offset 0x%x) byte %d (byte address 0x%x) returned 0x%02x at cycle %d, allowed %s (AR raised at cycle %d, %d write responses received before)" % (
+                    fs.append(dict(clause=P + ".read_data", key=key(kind), what="beat %d of read burst #%d (op %d, %s, offset 0x%x) byte %d (byte address 0x%x) returned 0x%02x at cycle %d, allowed %s (AR raised at cycle %d, %d write responses received before)" % (
                         j, rn, k, BNAME[op["burst"]], op["addr"], b, x, got, tr, sorted("0x%02x" % v for v in allowed), t_ar, npre)))
                     rfail = True
                     break
@@ -590,7 +650,7 @@ def oracle_axi(run, P="C09"):
     # ---- completion --------------------------------------------------------------------------------------
     if not run.completed:
         out = m.outstanding()
-        fs.append(dict(clause=P + ".incomplete", key=key("+".join(out) + ("" if out else "native") + "/" + tag), what="not finished after %d cycles (cap for %d beats): outstanding %s; AW %d/%d W-bursts %d/%d B %d/%d AR %d/%d R-bursts %d/%d, native slave idle=%s" % (
+        fs.append(dict(clause=P + ".incomplete", key=key("+".join(out) if out else "native"), what="not finished after %d cycles (cap for %d beats): outstanding %s; AW %d/%d W-bursts %d/%d B %d/%d AR %d/%d R-bursts %d/%d, native slave idle=%s" % (
             run.cycles, nbeats_of(stim), out, m.aw_i, len(m.wr), m.w_i, len(m.wr), len(m.b_log), len(m.wr), m.ar_i, len(m.rd), m.r_k, len(m.rd), s.idle())))
     else:
         # ---- final memory ----------------------------------------------------------------------------------
@@ -602,7 +662,7 @@ def oracle_axi(run, P="C09"):
                 exp |= (ent[-1][1] if ent else bgbyte(wa * nb + b)) << (8 * b)
             got = s.read_mem(wa, dw)
             if got != exp:
-                fs.append(dict(clause=P + ".final_memory", key=key(("untouched_word/" if wa not in touched else "") + tag), what="after quiescence native word 0x%x holds 0x%x, reference 0x%x (xor 0x%x)" % (wa, got, exp, got ^ exp)))
+                fs.append(dict(clause=P + ".final_memory", key=key("untouched_word" if wa not in touched else "written_word"), what="after quiescence native word 0x%x holds 0x%x, reference 0x%x (xor 0x%x)" % (wa, got, exp, got ^ exp)))
                 break
     # ---- read-modify-write mode: only full-word native writes -------------------------------------------------
     if rmw:
